@@ -225,6 +225,40 @@ class Recorder:
 
         for n in ("enqueue", "ack", "nack", "reject", "requeue"):
             wrap(n)
+
+        def wrap_queue_op(name, op):
+            orig = getattr(broker, name)
+
+            async def inner(queue_name):
+                if CURRENT_CALL.get():
+                    return await orig(queue_name)
+                m = {"q": rec.qid(queue_name), "topic": 0, "prio": 0, "due": 0, "exp": 0, "dl": 0, "ver": 0, "dues": 0}
+                k = rec.begin(op, 0, 0, m)
+                tok = CURRENT_CALL.set(k)
+                try:
+                    r = await orig(queue_name)
+                except asyncio.CancelledError:
+                    rec.end(k, "cancel")
+                    raise
+                except Exception:
+                    rec.end(k, "exc")
+                    raise
+                else:
+                    rec.end(k, "ok")
+                    return r
+                finally:
+                    try:
+                        CURRENT_CALL.reset(tok)
+                    except ValueError:
+                        pass
+
+            inner.__name__ = name
+            inner._repid_signal_emitter = getattr(orig, "_repid_signal_emitter", None)
+            setattr(broker, name, inner)
+
+        # queue_flush / queue_delete remove the messages of one queue; queue_declare must not touch any
+        for n, op in (("queue_flush", "flush"), ("queue_delete", "flush"), ("queue_declare", "declare")):
+            wrap_queue_op(n, op)
         orig_get = broker.get_consumer
 
         def get_consumer(queue_name, topics=None, max_unacked_messages=None, category=None, **kw):
